@@ -119,6 +119,10 @@ def run(s):
               "tasks.PhononContributionTask.get_modulus_isothermal"], kind="finite")
     s.canary("C02.canary.shear_differs_if_fed_adiabatic", lambda: shear_tasks(tier, perturbed=True))
     s.oblige("C02.heat_capacity_forwarding", heat_capacity, ["qha_adapter.QHAVolumeBaseInterface.heat_capacity"], kind="finite")
+    if s.tier == "thorough":
+        from vf import lean
+        s.oblige("C02.lemmas.FiniteSums(lean)", lambda: lean.check_file("lemmas/FiniteSums.lean"), ["lemmas/FiniteSums.lean (sum rules: linearity, congruence, combination, "
+                                                                                                     "positivity, permutation, weight scaling)"])
     s.min_obligations = 11
 
 
